@@ -25,3 +25,10 @@ M.contract('_collections_abc.MutableSet.remove', [('self', OSET), ('value', INST
            ensures={'view': 'self.view == seq_remove(old(self.view), value)', 'removed-is-absent': 'value not in self.view',
                     'other-members-kept': 'all(implies(v is not value, (v in self.view) == old(v in self.view)) for v in anyref("Class"))'},
            raises=[Raises('KeyError', when='value not in self.view')], modifies=['self.view'])
+M.contract('xtuml.tools.OrderedSet.__init__@seq', [('self', OSET), ('iterable', SeqT(INST))], returns=NONE, trusted=True, reason=WHY,
+           requires={'elements': 'all(x is not None for x in iterable)'},
+           ensures={'all-arrivals-present': 'all(x in self.view for x in iterable)', 'nothing-else': 'all(x in iterable for x in self.view)',
+                    'distinct-elements-keep-their-arrival-order':
+                    'implies(all(all(implies(i < j, iterable[i] is not iterable[j]) for j in range(0, len(iterable))) for i in range(0, len(iterable))), '
+                    'len(self.view) == len(iterable) and all(self.view[j] is iterable[j] for j in range(0, len(iterable))))'},
+           modifies=['self.view'])
